@@ -100,8 +100,12 @@ class _SubsetPrune(Spec):
 
     def ensures(self):
         def kept(c, r):
-            sel = r.args[0].args[0].args[1]
-            return c.ex.seq_of(sel, c.fr)
+            t = r
+            while isinstance(t, Term) and t.cls in ("Parent", "Rebuilt"):
+                t = t.args[0]
+            if not (isinstance(t, Term) and t.cls == "Projection"):
+                return None  # not the expected shape: reported by the shape clause
+            return c.ex.seq_of(t.args[1], c.fr)
 
         def shape(c, env, r):
             if not c.symbolic:
@@ -112,6 +116,8 @@ class _SubsetPrune(Spec):
             if not c.symbolic or r is None:
                 return True if c.symbolic else env["keys_kept"]
             K = kept(c, r)
+            if K is None:
+                return True
             x = z3.Const("x", Lab)
             return z3.ForAll([x], z3.Implies(z3.And(_in(env["FC"], x), z3.Or(NEEDED(x), _in(env["SUB"], x))), _in(K, x)))
 
@@ -119,6 +125,8 @@ class _SubsetPrune(Spec):
             if not c.symbolic or r is None:
                 return True
             K = kept(c, r)
+            if K is None:
+                return True
             x = z3.Const("x", Lab)
             return z3.ForAll([x], z3.Implies(_in(K, x), _in(env["FC"], x)))
 
